@@ -11,7 +11,6 @@ import (
 	"fmt"
 	"net"
 	"runtime"
-	"sync"
 	"sync/atomic"
 	"time"
 
@@ -61,7 +60,7 @@ type Net struct {
 	Listener getty.EventListener
 	Pool     gxsync.GenericTaskPool
 
-	mu       sync.Mutex
+	mu       simkit.QuietMutex
 	sessions []*Session
 	writes   map[int]int
 	// OnUndecodable is called when a client frame cannot be decoded by the
@@ -301,7 +300,7 @@ type Session struct {
 	local  string
 	closed atomic.Bool
 
-	mu        sync.Mutex
+	mu        simkit.QuietMutex
 	attrs     map[interface{}]interface{}
 	wire      []byte // sent by the coordinator, not yet delivered
 	pkt       []byte // delivered, not yet consumed by the reader (pktBuf)
